@@ -7,6 +7,7 @@
 package hfs
 
 import (
+	"bytes"
 	"strings"
 
 	"github.com/hashicorp/raft"
@@ -241,24 +242,17 @@ func HarnessStableBolt() {
 	val := vrt.Bytes("val", 1+vrt.Choice("vlen", 3))
 	n0 := len(vrt.Events())
 	vrt.Assert("C08.bolt-set-ok", db.SetStable([]byte("k"), val) == nil)
-	if vrt.Symbolic() {
-		committed := false
-		for _, e := range vrt.Events()[n0:] {
-			if e.Op == "bolt-commit" && e.OK {
-				committed = true
-				vrt.Assert("C08.bolt-set-touches-only-stable-bucket", e.Note == "[put:"+metadb.StableBucket+"/k]")
-			}
+	committed, onlyStable := !vrt.Symbolic(), true // natively the bbolt calls are not observable: trivially true
+	for _, e := range vrt.Events()[n0:] {
+		if e.Op == "bolt-commit" && e.OK {
+			committed = true
+			onlyStable = onlyStable && e.Note == "[put:"+metadb.StableBucket+"/k]"
 		}
-		vrt.Assert("C08.bolt-set-commits", committed)
 	}
+	vrt.Assert("C08.bolt-set-touches-only-stable-bucket", onlyStable)
+	vrt.Assert("C08.bolt-set-commits", committed)
 	got, err := db.GetStable([]byte("k"))
-	vrt.Assert("C08.bolt-get-latest", err == nil && string(got) == string(val) || vrt.Symbolic())
-	if vrt.Symbolic() {
-		vrt.Assert("C08.bolt-get-latest-sym", err == nil && len(got) == len(val))
-		for i := range got {
-			vrt.Assert("C08.bolt-get-latest-sym", got[i] == val[i])
-		}
-	}
+	vrt.Assert("C08.bolt-get-latest", err == nil && bytes.Equal(got, val))
 	if len(got) > 0 {
 		got[0] ^= 0xff
 		again, _ := db.GetStable([]byte("k"))
